@@ -207,5 +207,93 @@ class LongHistory(Part):
         return res
 
 
+JOBS = [
+    {},
+    {"nets": ["11.11.0.0/16"]},
+    {"nets": ["200.7.0.0/16", "10.9.0.0/16"], "B": 8},
+    {"prefixes": ["10.0.0.0/8", "11.0.0.0/8"]},
+    {"undo": True},
+    {"salt": "otherSalt"},
+    {"nets": ["11.11.0.0/16"], "undo": True, "B": 8},
+    {"entry": "main", "argv": ["--preserve-addresses", "11.11.0.0/16,138.7.0.0/16"]},
+    {"entry": "main", "argv": []},
+]
+JOB_TEXT = ("peer 11.11.62.24\npeer 11.12.1.1\npeer 11.229.62.24\npeer 200.7.6.5\npeer 200.8.1.1\npeer 10.9.8.7\n"
+            "peer 10.1.2.3\npeer 138.7.6.5\npeer 138.8.6.5\npeer 2001:db8::1\npeer 172.16.5.9 255.255.255.0\n")
+
+
+def run_job(job, root, tag):
+    """One anonymization job (its own option set) over JOB_TEXT; returns the output text."""
+    import io
+
+    from netconan.anonymize_files import FileAnonymizer
+
+    if job.get("entry") == "main":
+        from netconan.netconan import main
+
+        ind, outd = os.path.join(root, "i" + tag), os.path.join(root, "o" + tag)
+        seams.write_tree(ind, {"f.cfg": JOB_TEXT})
+        with seams.capture_logs(), seams.capture_stdio():
+            main(["-a", "-s", "saltForTest", "-i", ind, "-o", outd] + list(job["argv"]))
+        return (seams.read_tree(outd).get("f.cfg") or b"").decode()
+    with seams.capture_logs():
+        fa = FileAnonymizer(anon_pwd=False, anon_ip=not job.get("undo"), undo_ip_anon=bool(job.get("undo")),
+                            salt=job.get("salt", "saltForTest"),
+                            preserve_networks=None if job.get("nets") is None else list(job["nets"]),
+                            preserve_prefixes=None if job.get("prefixes") is None else list(job["prefixes"]),
+                            preserve_suffix_v4=job.get("B", 0), preserve_suffix_v6=job.get("B", 0))
+        out = io.StringIO()
+        fa.anonymize_io(io.StringIO(JOB_TEXT), out)
+    return out.getvalue()
+
+
+class JobSequences(Part):
+    name = "jobs_with_other_options_before"
+    desc = "every sequence of <=3 jobs (own option set each: networks, prefixes, host bits, salt, undo, library or main) in one process: each job's output equals that job alone in a fresh state"
+
+    def __init__(self, tier, seed):
+        self.tier, self.seed = tier, seed
+
+    def cases(self):
+        return [{"first": i} for i in range(len(JOBS))]
+
+    def run(self, case):
+        res = Res()
+        root = seams.scratch_dir("c03j")
+        depth = 3 if self.tier == "quick" else 4
+        try:
+            ref = {}
+            for j in range(len(JOBS)):
+                seams.restore_globals()
+                ref[j] = run_job(JOBS[j], root, "ref%d" % j)
+            seqs = [tuple(case["seq"])] if "seq" in case else [
+                (case["first"],) + rest for k in range(0, depth) for rest in itertools.product(range(len(JOBS)), repeat=k)]
+            n = 0
+            for seq in seqs:
+                seams.restore_globals()
+                res.states += 1
+                for pos, j in enumerate(seq):
+                    n += 1
+                    got = run_job(JOBS[j], root, "s%d" % n)
+                    res.transitions += 1
+                    res.evals += 1
+                    res.out((j, got))
+                    if got != ref[j]:
+                        gl, rl = got.split("\n"), ref[j].split("\n")
+                        i = [k for k in range(min(len(gl), len(rl))) if gl[k] != rl[k]][:1]
+                        res.violation("job-output-depends-on-earlier-jobs|%s" % ("main" if JOBS[j].get("entry") else "library"),
+                                      "jobs %r: job %r after %r gives %r, alone %r" % (
+                                          [JOBS[x] for x in seq], JOBS[j], [JOBS[x] for x in seq[:pos]],
+                                          gl[i[0]] if i else got[:80], rl[i[0]] if i else ref[j][:80]), {"first": seq[0], "seq": list(seq)})
+                        break
+                res.nt(seq)
+            seams.restore_globals()
+            if "seq" not in case:
+                res.samples.append({"first_job": JOBS[case["first"]], "sequences": len(seqs)})
+        finally:
+            shutil.rmtree(root, ignore_errors=True)
+        return res
+
+
 def parts(tier, seed):
-    return [GraphPart(tier, seed), FilesPart(tier, seed), LongHistory(tier, seed)]
+    return [GraphPart(tier, seed), FilesPart(tier, seed), LongHistory(tier, seed), JobSequences(tier, seed)]
